@@ -31,8 +31,8 @@ PROPS = {
     },
     "C10": {
         "suites": [("ser", 1200, 6000)],
-        "proved_scope": "first sentence of the property, at the level of the FullnameSerializer: the top frame of the stack is the nearest-declaration-wins scope of the declaration frames pushed (C10_stack_invariant; kept by push under unique prefixes per element, undone by pop: C10_stack_push, _pop; base case for every tree since namespaces_in_scope yields each prefix once: C10_stack_base, _base_inScope); the prefix element_prefix / attribute_prefix choose, looked up by XML-Namespaces rules in the scope of the same declarations, gives back the name's namespace (C10_sound_attribute full strength; C10_sound_partial for elements under the guard 'not (no-namespace name while a default namespace is in scope)'; the unguarded statement is refuted: C10_sound_false); an error is returned exactly when no usable prefix is in scope (C10_error_element, _attribute)",
-        "not_proved": "that during the traversal the stack frames are exactly the declaration lists of the open elements (push at StartTagOpen / pop at EndTag are modelled and exercised by the ser suite, the fold invariant over genOutputs is not proved); that declarations of the XML namespace are not written (render_output suppresses them: defect C10:prefix-bound-to-xml-namespace-written-without-declaration) and that URIs are written unescaped (defect C10:namespace-uri-written-unescaped) are outside the theorem, found by the oracle; C10_repair / C10_iter (create_missing_prefixes) belong to the scope/edit suites",
+        "proved_scope": "first sentence of the property, for every tree whose elements declare no prefix twice, every start node, every parameter set, arbitrary escaping functions: (1) FullnameSerializer level: the top frame of the stack is the nearest-declaration-wins scope of the declaration frames pushed (C10_stack_invariant; kept by push, undone by pop: C10_stack_push, _pop; base case because namespaces_in_scope yields each prefix once: C10_stack_base, _base_inScope); the prefix element_prefix / attribute_prefix choose, looked up by XML-Namespaces rules in the scope of the same declarations, gives back the name's namespace (C10_sound_attribute full strength; C10_sound_partial for elements under the guard 'not (no-namespace name while a default namespace is in scope)'; the unguarded statement is refuted by a closed witness: C10_sound_false); an error is returned exactly when no usable prefix is in scope (C10_error_element, _attribute). (2) the serialisation run: before every event of gen_outputs the stack stands for the declaration lists of the open elements between the start node and the event's node on top of namespaces_in_scope(start) (C10_stack_traversal: push at StartTagOpen, pop at EndTag, balanced over every subtree), hence every start-tag, end-tag and attribute name the run renders resolves in those declarations to the node's expanded name (C10_sound_tree_partial, _endtag_partial with the same guard; C10_sound_tree_attribute full strength)",
+        "not_proved": "the theorems resolve names in the declarations of the tree (the Prefix events, C16_events_element), not in the bytes: that a declaration of the XML namespace under another prefix is not written (render_output suppresses it: defect C10:prefix-bound-to-xml-namespace-written-without-declaration) and that URIs are written unescaped (defect C10:namespace-uri-written-unescaped) are outside the theorems and are found by the suite's independent resolver / reparse oracle; a string-level resolver (parsing qnames back out of the token text) is not modelled; C10_repair / C10_iter (create_missing_prefixes) belong to the scope / edit suites",
         "modelled": EXTERNAL,
         "assumptions": ["no prefix is declared twice on one element (NodeMap keys are unique: C11)"],
     },
